@@ -27,6 +27,8 @@ CHECKS = {
             "doc comments asserted only for unambiguous placements; statements are never indented"),
     "C04": ("reference-evaluator monitor (R-expr, exact rationals, own precedence table) on the value object recorded at the real directive handler and on @print text; injected undefined sub-expressions must be rejected",
             "R-expr is the trusted evaluator; results the Specification does not pin are not compared; bounded exponents"),
+    "C12": ("icontract postcondition (M-const) on the real Constant.__init__ + complete boundary grid with accept/reject and exact stored-value oracle",
+            "acceptance rules as restated in the property; exhaustive=true refers to the finite boundary grid only"),
 }
 
 NOT_YET = {
